@@ -50,11 +50,54 @@ func (p *Prog) ByteTable(fnName string) ([256][]any, error) {
 	for c := 0; c < 256; c++ {
 		res, err := it.call(fd, pobj, int64(c))
 		if err != nil {
+			// outside the fragment of the syntax-tree reader (a table filled by an initialiser, an if with an
+			// init statement): the SSA evaluator reads the function, package initialisers included
+			if tab, ok := p.byteTableEvaluated(fnName); ok {
+				return tab, nil
+			}
 			return out, fmt.Errorf("%s(%d): %w", fnName, c, err)
 		}
 		out[c] = res
 	}
 	return out, nil
+}
+
+// byteTableEvaluated evaluates fn(c) for c = 0..255 with the SSA evaluator.
+func (p *Prog) byteTableEvaluated(fnName string) ([256][]any, bool) {
+	var out [256][]any
+	fn := p.FuncExact(fnName)
+	if fn == nil {
+		fn = p.Func(fnName)
+	}
+	if fn == nil || len(fn.Params) != 1 || fn.Blocks == nil {
+		return out, false
+	}
+	ev := NewEvaluator()
+	for c := 0; c < 256; c++ {
+		ev.Steps = 200000
+		r, err := ev.Call(fn, []any{int64(c)}, 0)
+		if err != nil {
+			return out, false
+		}
+		var vals []any
+		if t, ok := r.(ETuple); ok {
+			vals = []any(t)
+		} else {
+			vals = []any{r}
+		}
+		for i, v := range vals {
+			switch x := v.(type) {
+			case int64, bool, nil:
+			case *EErr:
+				vals[i] = ErrVal{}
+				_ = x
+			default:
+				return out, false
+			}
+		}
+		out[c] = vals
+	}
+	return out, true
 }
 
 // ByteSet returns the set of bytes for which the boolean function returns true.
